@@ -153,7 +153,25 @@ def run(chk):
         }
         diffs = _diff(new, want)
         chk.decide(not diffs, "legacy-operator-mapping", nop.qname, f"{inst}: {diffs[:4]}", where=nop.where, instance=inst, how="PE vs mapping table")
-    chk.floor("legacy card cases", n, 80)
+    # the initial scale exactly ON a default matching scale, no initial flavour number given: the default flow counts that scale as passed
+    # (the same convention that labels the evolution grid: a point on a matching scale gets the upper flavour number)
+    for q0 in (Fraction(2), Fraction(10), Fraction(85), Fraction(9)):
+        pe = mk_pe()
+        th = legacy_theory()
+        th["Q0"] = q0
+        op, mus = legacy_operator("mugrid")
+        inst = f"Q0={q0},nf0=None"
+        try:
+            new = pe.getattr(pe.instantiate(leg.qname, [th, op]), "new_operator")
+            got = new.get("init")
+        except PERaise as e:
+            got = f"raises {e}"
+        n += 1
+        chk.decide(isinstance(got, tuple) and got[0] == q0 and got[1] == nfd(q0), "legacy-operator-mapping", nop.qname,
+                   f"{inst}: the upgraded initial point is {got}; required ({q0}, {nfd(q0)}) - the default flow of the matching scales {[str(w) for w in walls]} "
+                   f"(squared), a scale on a matching scale belonging to the upper patch, as for the points of the evolution grid", where=nop.where,
+                   instance=inst, how="PE vs default flow")
+    chk.floor("legacy card cases", n, 84)
     # ---- archives ------------------------------------------------------------------------------------------------------------------------
     for ver, modname in ((1, "eko.io.v1"), (2, "eko.io.v2")):
         pe = PE(src)
